@@ -371,8 +371,8 @@ class C10(Property):
     drive_file = "AbtemVerif/Drive/C10.lean"
     trusted = [
         "hand model Model/Build.lean of the loops/index bookkeeping in abtem/potentials/iam.py (tied by tracing correspondence; "
-        "fingerprints of the modelled functions are reported in evidence); py2lean translator for the two generated width expressions "
-        "(Gen/Build: eagerWidth, lazyWidth)",
+        "fingerprints of the modelled functions are reported in evidence); py2lean translator for the generated expressions of Gen/Build "
+        "(eagerWidth, lazyWidth, atomsCount, atomsStart, crystalInWindow, crystalStop, crystalFlagLo, crystalFlagHi)",
         "tagging kernels of the harness (TagIntegrator, constant-valued PotentialArrays) replace numerics by symbols; the orchestration "
         "that runs is the real abTEM code",
         "DASK: map_blocks calls the block function once per ensemble block and places block c at position c",
